@@ -1,7 +1,7 @@
 \* pipe 1 reader (delta|cumulative), ranks 0..6, every boundary list within {1,3,5}, <=3 values, <=3 collections
 \* (tools/props/C07.py generates the same text; thorough tier uses larger constants)
 CONSTANTS MaxRank = 6
-  BoundSets = {{}, {1}, {3}, {5}, {1,3}, {1,5}, {3,5}, {1,3,5}}
+  BoundSets = {{}, {1}, {3}, {5}, {1,3}, {1,5}, {3,5}, {1,3,5}} BOff = 0
   Tables = {"D_small"}
   MMChoices = {TRUE}
   Mode = "pipe" NSlots = 2 NKeys = 1 ReaderCfgs = {1, 2}
